@@ -149,12 +149,13 @@ func result(j string) proxykit.Reply {
 }
 
 type gen struct {
-	r        *cv.Rand
-	st       *cv.Stats
-	keys     []proxykit.Key // signable
-	bad      []badAddr      // listed by eth_accounts, the wallet must refuse to sign (keys.go)
-	uniq     int
-	plainEnv bool // no odd key casing / duplicate members in envelopes (concurrent rounds: frames are attributed by method + params)
+	r         *cv.Rand
+	st        *cv.Stats
+	keys      []proxykit.Key // signable
+	bad       []badAddr      // listed by eth_accounts, the wallet must refuse to sign (keys.go)
+	uniq      int
+	forceLead *string // leadCorpus: the bytes put in front of the body instead of a random lead
+	plainEnv  bool    // no odd key casing / duplicate members in envelopes (concurrent rounds: frames are attributed by method + params)
 }
 
 // fromSpec forces the `from` of a generated eth_sendTransaction (histories over one address).
@@ -805,6 +806,9 @@ type scenario struct {
 var spaceBytes = []string{" ", "\n", "\t", "\r", "  \n"}
 
 func (g *gen) lead() string {
+	if g.forceLead != nil {
+		return *g.forceLead
+	}
 	switch g.r.Intn(12) {
 	case 0:
 		return strings.Repeat(g.pick(spaceBytes...), 1+g.r.Intn(5))
@@ -965,6 +969,43 @@ func (g *gen) historyBatch(bads []badAddr, reps int) scenario {
 	}
 	ms = append(ms, g.sendTxFrom(rl, false, g.goodSpec(len(g.keys)-1, 1)))
 	return g.assemble(rl, ms, "history", "history-batch")
+}
+
+// leadBytes: every byte for which the proxy's batch/single sniffing (unicode.IsSpace on a single byte) answers
+// "skip", its neighbours on both sides of each range, and NUL. Round 7 (seed C09-7: '\r' dropped from the
+// skipped set): the random lead() reached a CR in front of a batch about once per run, so the set is now
+// enumerated — one batch and one single request behind each byte, and behind the four-byte JSON whitespace mix.
+var leadBytes = []string{"\t", "\n", "\v", "\f", "\r", " ", "\x85", "\xa0", "\x08", "\x0e", "\x1f", "!", "\x84", "\x86", "\x9f", "\xa1", "\x00",
+	" \t\n\r", "\r\n", "\n\r \t"}
+
+func jsonSpaceOnly(s string) bool {
+	for i := 0; i < len(s); i++ {
+		if s[i] != ' ' && s[i] != '\t' && s[i] != '\n' && s[i] != '\r' {
+			return false
+		}
+	}
+	return true
+}
+
+// leadCorpus(k): scenario k of the directed corpus (2 per lead: a batch of two, a single request).
+func (g *gen) leadCorpus(k int) scenario {
+	ld := leadBytes[(k/2)%len(leadBytes)]
+	g.forceLead = &ld
+	defer func() { g.forceLead = nil }()
+	var sc scenario
+	if k%2 == 0 {
+		sc = g.batch(false, 2, []string{"passthrough", "mixed", "local"}[(k/2)%3])
+	} else {
+		rl := newRules()
+		sc = g.single(rl, g.passthrough(rl))
+	}
+	sc.family = "lead-byte"
+	g.tag("lead-byte:" + fmt.Sprintf("%q", ld))
+	if !jsonSpaceOnly(ld) {
+		// not JSON: no member may be executed, whatever the sniffing decided
+		sc.tree, sc.n, sc.order = nil, 1, []int{0}
+	}
+	return sc
 }
 
 // malformed top-level bodies
